@@ -367,8 +367,9 @@ const fn unexpected_start() -> DeError {
 
 /// Character data between elements, or around the root element, is skipped:
 /// it may only be whitespace (indentation), anything else does not fit the type.
+/// XML whitespace is space, tab, CR and LF; a form feed is not.
 fn ensure_whitespace(text: &BytesText<'_>) -> DeResult {
-    if text.iter().all(u8::is_ascii_whitespace) {
+    if text.iter().all(|b| matches!(b, b' ' | b'\t' | b'\r' | b'\n')) {
         Ok(())
     } else {
         Err(DeError::InvalidContent)
